@@ -79,6 +79,33 @@ def erase (s : Set) (k : Key) : Set := s.filter (fun x => x != k)
 def size (s : Set) : Nat := s.length
 /-- well-formed: no element occurs twice -/
 def WF (s : Set) : Prop := s.Nodup
+
+/-- operations of a set history -/
+inductive Op where
+  | add (e : Key)
+  | contains (e : Key)
+  | remove (e : Key)
+  | removeAll
+  deriving Repr, DecidableEq
+
+/-- one step of the ideal set (`failed`: the insertion was refused with that status); the out-value
+of `remove` is not part of the ideal set (the C set reports the table's dummy value) -/
+def step (s : Set) (op : Op) (failed : Option Stat) : Map.Out × Set :=
+  match op with
+  | .add e =>
+    match failed with
+    | some st => (⟨some st, none⟩, s)
+    | none => (⟨some .ok, none⟩, insert s e)
+  | .contains e => (⟨none, some (if s.contains e then 1 else 0)⟩, s)
+  | .remove e => if s.contains e then (⟨some .ok, none⟩, erase s e) else (⟨some .errKeyNotFound, none⟩, s)
+  | .removeAll => (⟨none, none⟩, [])
+
+def run (s : Set) : List Op → List (Option Stat) → List Map.Out × Set
+  | [], _ => ([], s)
+  | op :: ops, fs =>
+    let r := step s op (fs.headD none)
+    let rs := run r.2 ops fs.tail
+    (r.1 :: rs.1, rs.2)
 end Set
 
 end CC.Spec
